@@ -425,6 +425,20 @@ func (s *levelsController) levelTargets() targets {
 		t.baseLevel++
 	}
 
+	// The base level must not lie below a non-empty level. The size loop above
+	// picks the base level from the size of the last level alone, so once the
+	// last level has shrunk (deletes, drops) it can select a level underneath
+	// levels that still hold tables. L0 would then be compacted past those
+	// levels, and the compaction, which only looks for overlap below its target
+	// level, would discard delete markers and old versions although an older
+	// version of the key still lives in a skipped level: deleted keys come back.
+	for i := 1; i < t.baseLevel; i++ {
+		if s.levels[i].getTotalSize() > 0 {
+			t.baseLevel = i
+			break
+		}
+	}
+
 	// The base level must never be L0. For a very large LSM tree the size loop
 	// above can fail to assign a base level: it only sets baseLevel where
 	// adjust(dbSize) <= BaseLevelSize, and the smallest level it checks (L1)
